@@ -480,3 +480,107 @@ theorem fits_shape (breaks : List (Nat × Bool)) : ∀ (fuel : Nat) (stack : Lis
         exact ih _ _
 
 end Printer
+
+/-! ## flat width = width printed in flat mode -/
+namespace Printer
+
+mutual
+/-- documents whose flat printing stays on the line: texts without `\n`, spaces, soft lines, indents,
+lists, and `IfBreak`s without group id whose flat side is of the same kind -/
+def Doc.flatSimple : Doc → Bool
+  | .text s => !s.contains 10
+  | .space => true
+  | .softLine => true
+  | .softLineOrEmpty => true
+  | .indent ds => flatSimpleL ds
+  | .list ds => flatSimpleL ds
+  | .ifBreak _ f none => f.flatSimple
+  | _ => false
+def flatSimpleL : List Doc → Bool
+  | [] => true
+  | d :: ds => d.flatSimple && flatSimpleL ds
+end
+
+theorem lastNewlineTail_none (s : List Nat) (h : s.contains 10 = false) : lastNewlineTail s = none := by
+  induction s with
+  | nil => rfl
+  | cons b r ih =>
+    simp only [List.contains_cons, Bool.or_eq_false_iff] at h
+    have hb : b ≠ 10 := by
+      intro e; subst e; simp at h
+    simp [lastNewlineTail, ih h.2, hb]
+
+theorem pushText_col (cfg : Cfg) (st : St) (s : List Nat) (hp : st.pending = none) (h : s.contains 10 = false) :
+    (pushText cfg st s).col = st.col + s.length ∧ (pushText cfg st s).pending = none := by
+  simp [pushText, flushPending, hp, lastNewlineTail_none s h]
+
+/-- `pd` advances the column of flat-simple documents by their flat width -/
+def SpecW (pd : St → Doc → Mode → Option St) : Prop :=
+  ∀ st d st', d.flatSimple = true → st.pending = none → pd st d .flat = some st' →
+    st'.pending = none ∧ st'.col = st.col + d.flatWidth
+
+theorem docsWith_specW (pd : St → Doc → Mode → Option St) (hpd : SpecW pd) (ds : List Doc) (st st' : St)
+    (hp : flatSimpleL ds = true) (hs : st.pending = none) (h : docsWith pd st ds .flat = some st') :
+    st'.pending = none ∧ st'.col = st.col + flatWidthL ds := by
+  induction ds generalizing st with
+  | nil =>
+    simp [docsWith] at h; subst h
+    exact ⟨hs, by simp [flatWidthL]⟩
+  | cons d ds ih =>
+    simp only [flatSimpleL, Bool.and_eq_true] at hp
+    simp only [docsWith, List.foldlM_cons, Option.bind_eq_bind, Option.bind_eq_some_iff] at h
+    obtain ⟨s1, h1, h2⟩ := h
+    obtain ⟨a1, a2⟩ := hpd st d s1 hp.1 hs h1
+    obtain ⟨b1, b2⟩ := ih s1 hp.2 a1 h2
+    exact ⟨b1, by rw [b2, a2]; simp [flatWidthL]; omega⟩
+
+theorem printDoc_specW (cfg : Cfg) : ∀ fuel, SpecW (printDoc cfg fuel)
+  | 0 => by
+    intro st d st' _ _ h
+    simp [printDoc] at h
+  | fuel + 1 => by
+    have ih := printDoc_specW cfg fuel
+    intro st d st' hp hs h
+    cases d with
+    | text s =>
+      simp only [Doc.flatSimple, Bool.not_eq_true'] at hp
+      simp only [printDoc, Option.some.injEq] at h; subst h
+      obtain ⟨q1, q2⟩ := pushText_col cfg st s hs hp
+      exact ⟨q2, by rw [q1]; rfl⟩
+    | space =>
+      simp only [printDoc, Option.some.injEq] at h; subst h
+      obtain ⟨q1, q2⟩ := pushText_col cfg st [32] hs (by decide)
+      exact ⟨q2, by rw [q1]; rfl⟩
+    | softLine =>
+      simp only [printDoc, Option.some.injEq] at h; subst h
+      obtain ⟨q1, q2⟩ := pushText_col cfg st [32] hs (by decide)
+      exact ⟨q2, by rw [q1]; rfl⟩
+    | softLineOrEmpty =>
+      simp only [printDoc, Option.some.injEq] at h; subst h
+      exact ⟨hs, rfl⟩
+    | hardLine => simp [Doc.flatSimple] at hp
+    | group ds sb id => simp [Doc.flatSimple] at hp
+    | fill ds => simp [Doc.flatSimple] at hp
+    | lineSuffix ds => simp [Doc.flatSimple] at hp
+    | alignGroup es => simp [Doc.flatSimple] at hp
+    | indent ds =>
+      simp only [Doc.flatSimple] at hp
+      simp only [printDoc, Option.map_eq_some_iff] at h
+      obtain ⟨s1, h1, rfl⟩ := h
+      have := docsWith_specW _ ih ds { st with level := st.level + 1 } s1 hp hs h1
+      exact ⟨this.1, this.2⟩
+    | list ds =>
+      simp only [Doc.flatSimple] at hp
+      simp only [printDoc] at h
+      exact docsWith_specW _ ih ds st st' hp hs h
+    | ifBreak b f gid =>
+      cases gid with
+      | some g => simp [Doc.flatSimple] at hp
+      | none =>
+        simp only [Doc.flatSimple] at hp
+        simp only [printDoc] at h
+        have hb : (decide (Mode.flat = Mode.brk)) = false := by decide
+        simp only [hb, Bool.false_eq_true, if_false] at h
+        exact ih st f st' hp hs h
+
+end Printer
